@@ -17,7 +17,7 @@ from mbt import engine as E
 from mbt.drive import childorder as CO
 
 PID = "C10"
-ALL_OPS = ("Insert", "Add", "PublicAdd", "GetOrAdd", "RemoveAll", "ChangeTo")
+ALL_OPS = ("Insert", "Add", "PublicAdd", "GetOrAdd", "RemoveAll", "ChangeTo", "Hand")
 CFG = ("SPECIFICATION Spec\nCONSTANTS DEPTH = %d\n SUBSETS = %s\n MAXSLOTS = %d\n L2OPS = {%s}\n L2MAXSLOTS = %d\nVIEW ViewSt\nINVARIANT TypeOK\n"
        "INVARIANT InitPermitted\nCHECK_DEADLOCK FALSE\n")
 _RE_INIT = re.compile(r"Finished computing initial states: (\d+) distinct state")
@@ -96,13 +96,22 @@ def replay_all(built, trs):
             keys.append(key)
     parts = E.pmap(CO.replay_many, E.chunks(keys, 256), procs=16, chunk=1)
     obs = [o for p in parts for o in p]
-    steps = []
+    # the same calls on parents whose children have content of their own (descendants named like the children): the sentence is about
+    # CHILDREN; where the outcome differs from the plain rendering, the observed step is judged as well
+    parts = E.pmap(CO.replay_many, E.chunks([k + (True,) for k in keys if k[1]], 256), procs=16, chunk=1)
+    deep = dict(zip([k for k in keys if k[1]], [o for p in parts for o in p]))
+    steps, extra = [], []
     for i, t in enumerate(trs):
         c = cases[t[0] - 1]
         d = c["decls"][t[1] - 1]
-        o = obs[index[(c["tag"], tuple(t[3]), t[2], d["prop"], d["child"])]]
+        key = (c["tag"], tuple(t[3]), t[2], d["prop"], d["child"])
+        o = obs[index[key]]
         steps.append({"id": i, "k": t[0], "x": t[1], "op": t[2], "s": t[3], "t": o["t"], "out": o["out"], "judged": t[6]})
-    return steps, len(keys)
+        o2 = deep.get(key)
+        if o2 is not None and (o2["t"] != o["t"] or o2["out"] != o["out"]):
+            extra.append({"id": len(trs) + i, "k": t[0], "x": t[1], "op": t[2], "s": t[3], "t": o2["t"], "out": o2["out"], "judged": t[6], "deep": True})
+    replay_all.deep = {"contexts": len(deep), "differing_steps": len(extra)}
+    return steps + extra, len(keys) + len(deep)
 
 
 def validate_steps(work, cpath, steps, tag="obs", size=30000):
@@ -139,6 +148,9 @@ def diagnose(case, decl, w):
     complete - the search order of first_child_found_in (tuple order instead of document order)."""
     k = case["rank"][decl["child"]]
     later = suggest_fix(case, decl)
+    if decl["child"] not in w["t"]:
+        return "after the call the new %s is not among the CHILDREN of the parent%s" % (
+            decl["child"], " (the siblings hold descendants of the same names: it was placed inside one of them)" if w.get("deep") else "")
     offending = [t for t in w["s"] if t in case["rank"] and case["rank"][t] > k and w["t"].index(t) < w["t"].index(decl["child"])]
     missing = [m for m in later if m not in decl["succ"]]
     if offending and all(t in decl["succ"] for t in offending):
@@ -177,7 +189,7 @@ def main() -> int:
 
     maxslots = 12
     # second step ("insert after insert"): the quick tier applies the inserting entry points only
-    l2ops = ALL_OPS if thorough else ("Insert", "PublicAdd", "GetOrAdd", "ChangeTo")
+    l2ops = ALL_OPS if thorough else ("Insert", "PublicAdd", "GetOrAdd", "ChangeTo", "Hand")
     l2max = 99 if thorough else 16     # ... and only to element types of <= 16 slots (the three axis types are 20-23)
     r, n_init, trs, cex, cpath = model_check(work, consts, "a", 2, thorough, maxslots, l2ops=l2ops, l2max=l2max)
     t_mc = r.wall
@@ -273,7 +285,7 @@ def main() -> int:
         callers = d["remove_callers"] if clause == "RemoveRemovesAll" else d["callers"]
         reported.append(sig)
         rep.reject(sig, {"module": "ChildOrder", "tag": c["tag"], "cls": c["cls"], "xtype": c["xtype"], "prop": d["prop"], "child": d["child"],
-                         "op": w["op"], "from": w["s"], "observed": w["t"], "failing": [clause], "successors": d["succ"],
+                         "op": w["op"], "from": w["s"], "deep": bool(w.get("deep")), "observed": w["t"], "failing": [clause], "successors": d["succ"],
                          "schema_later_members": suggest_fix(c, d), "callers": callers, "xtypes": xtypes},
                    what + "; named by " + ", ".join("%s (%s)" % (k, v[0]) for k, v in sorted(callers.items())))
     if drift:
@@ -289,6 +301,8 @@ def main() -> int:
            "applicable_declarations": sum(len(c["decls"]) for c in cases), "declarations_judged": len(judged_decl),
            "not_applicable": built["not_applicable"], "unsupported_content_models": built["unsupported"],
            "handwritten_insertion_sites_not_judged_here": built["handwritten_sites"][:80], "op_counts": op_counts, "validated": tot,
+           "handwritten_adders_judged": sorted({"%s.%s" % (c["cls"], d["prop"]) for c in cases for d in c["decls"] if "Hand" in d["ops"]}),
+           "siblings_with_content": getattr(replay_all, "deep", {}),
            "design_counterexamples": {k: len(v) for k, v in sorted(design.items())},
            "observed_rejections": {k: len(v) for k, v in sorted(observed.items())},
            "latent_declarations": latent, "reported": reported,
@@ -375,7 +389,7 @@ def run_replay(rep, work, built, consts, path) -> int:
         raise E.MachineryError("replay: %s no longer declares %s" % (rp["tag"], rp["prop"]))
     d = c["decls"][x]
     CO.URI2PFX = built["uri2pfx"]
-    o = CO.replay_one((c["tag"], tuple(rp["from"]), rp["op"], d["prop"], d["child"]))
+    o = CO.replay_one((c["tag"], tuple(rp["from"]), rp["op"], d["prop"], d["child"], bool(rp.get("deep"))))
     cpath = os.path.join(work, "cases_replay.json")
     with open(cpath, "w") as f:
         json.dump(consts, f)
